@@ -30,7 +30,8 @@ def run_check(prop, tier):
     if tier == "thorough":
         from . import selftest
         selfval = selftest.run(prop)
-    return report.finish(prop, tier, obs, floors + f, info, t0, res["explanation"], res["trusted"],
+    from .props.clauses2 import extra, trusted
+    return report.finish(prop, tier, obs, floors + f, info, t0, res["explanation"] + extra(prop), list(res["trusted"]) + trusted(prop),
                          selfval=selfval, extra_cov=res.get("coverage"), deferred=ctx.deferred)
 
 
